@@ -47,6 +47,22 @@ def parseRegion : List String → Option (Region Float)
     | some [_, _, ss, cs, se, ce] => some (.wedge ss cs se ce) | _ => none
   | _ => none
 
+def pairs : List Float → List (P2 Float)
+  | x :: y :: rest => (x, y) :: pairs rest
+  | _ => []
+
+/-- `genprism hz <n> lo(x y)*n hi(x y)*n`: `some none` = the constructor throws -/
+def parseGenPrism : List String → Option (Option (Region Float))
+  | "genprism" :: hz :: n :: ws =>
+    match pf16 hz, parseNat n, pfs16 ws with
+    | some hz, some n, some d =>
+      if n < 1 || n > 16 || d.length != 4 * n then none
+      else
+        let lo := pairs (d.take (2 * n)); let hi := pairs (d.drop (2 * n))
+        some ((genPrismNormalize hz lo hi).map fun (l, h, dg) => .genprism hz l h dg)
+    | _, _, _ => none
+  | _ => none
+
 /-- angle-range validation of the constructors whose sin/cos are oracle inputs -/
 def anglesValid : List String → Bool
   | "ppiped" :: ws => match pfs16 ws with
@@ -57,6 +73,12 @@ def anglesValid : List String → Bool
     | some [s, i, _, _, _, _] => s >= 0.0 && s < 1.0 && i > 0.0 && i <= 0.5
     | _ => true
   | _ => true
+
+/-- region or validation failure -/
+def parseRegionV (ws : List String) : Option (Option (Region Float)) :=
+  match ws with
+  | "genprism" :: _ => parseGenPrism ws
+  | _ => (parseRegion ws).map fun r => if r.valid && anglesValid ws then some r else none
 
 /-- `<tol> (n | t x y z | x r00 … r22 tx ty tz) rest…` -/
 def parseHead : List String → Option (Tol Float × Xform Float × List String)
@@ -129,10 +151,9 @@ def driverStep (st : Unit) (line : String) : Unit × String :=
   | "build" :: rest =>
     (match parseHead rest with
      | some (tol, tra, rw) =>
-       (match parseRegion rw with
-        | some r =>
-          if !(r.valid && anglesValid rw) then "err validate"
-          else showBuild tra (r.build tol tra)
+       (match parseRegionV rw with
+        | some (some r) => showBuild tra (r.build tol tra)
+        | some none => "err validate"
         | none => "bad-op")
      | none => "bad-op")
   | "member" :: rest =>
@@ -140,21 +161,21 @@ def driverStep (st : Unit) (line : String) : Unit × String :=
      | some (tol, tra, rw) =>
        let (rws, pws) := splitBar rw
        if !rw.contains "|" then "bad-op" else
-       (match parseRegion rws, (pfs16 pws).bind pts3 with
-        | some r, some pts =>
-          if !(r.valid && anglesValid rws) then "err validate"
-          else
-            let b := r.build tol tra
-            if b.diverged then "diverged"
-            else "ok " ++ String.ofList (pts.map (memberChar b))
+       (match parseRegionV rws, (pfs16 pws).bind pts3 with
+        | some (some r), some pts =>
+          let b := r.build tol tra
+          if b.diverged then "diverged"
+          else "ok " ++ String.ofList (pts.map (memberChar b))
+        | some none, some _ => "err validate"
         | _, _ => "bad-op")
      | none => "bad-op")
   -- SPEC membership (model only): `spec <region> | pts` -> 1/0 per point
   | "spec" :: rest =>
     let (rws, pws) := splitBar rest
-    (match parseRegion rws, (pfs16 pws).bind pts3 with
-     | some r, some pts =>
+    (match parseRegionV rws, (pfs16 pws).bind pts3 with
+     | some (some r), some pts =>
        "ok " ++ String.ofList (pts.map fun p => if r.mem p then '1' else '0')
+     | some none, some _ => "err validate"
      | _, _ => "bad-op")
   | _ => "bad-op")
 
